@@ -27,6 +27,12 @@ TB = [
     "harness: history generation, normalisation (comment lines dropped, h_tmpN renamed by first occurrence), diffing; state inside lark is not modelled",
 ]
 FAIL_PARSE = ["{ RdV = ; }", "{", "{ RdV = RsV @ 1; }"]
+# failures inside a handler that has already raised an attribute flag while no operand is registered yet
+FAIL_EARLY = ["{ tmp = mem_load_s32(undeclared_addr); }", "{ mem_store_u32(undeclared_addr, undeclared_val); }", "{ JUMP(undeclared_target); }", "{ OsN; }",
+              "{ if (undeclared_c) { undeclared_x = 1; } }", "{ P0 = undeclared_v; }"]
+# compile-time folding that rewrites a type object in place (unary minus of a folded constant of mixed literal types)
+FOLDERS = ["{ RdV = -(1 + 1U); }", "{ RddV = -(2 * 4U); }", "{ RddV = -(1U + 2ULL); }", "{ RdV = ~(1 + 1U); }", "{ RddV = -(1LL + 1U); }"]
+TYPE_PROBES = ["{ RdV = (RsV > 5U); }", "{ RddV = RsV + 5U; }", "{ RddV = RssV + 5ULL; }", "{ PdV = (RsV < RtV); }", "{ RddV = RsV * 3LL; }"]
 FAIL_XFORM = ["{ RdV = foo(RsV); }", "{ EA = RsV; mem_store_u32(EA, RtV); while (RsV) { RdV = 1; } }", "{ P1 = 1; RdV = RsV->x; }",
               "{ RdV = siV + unknown_var; }", "{ i = 0; i++; RdV = bar(RsV); }", "{ float f = 1; RdV = 1; }", "{ RdV = mem_load_s16(RsV) + 1; }"]
 # behaviours with several value-producing operations: compiled over and over on ONE long-lived instance, so that the
@@ -96,7 +102,7 @@ def run(tier: str, replay=None) -> int:
 
     # reference outputs: each in its own process forked NOW, before anything was compiled in this process
     import multiprocessing as mp
-    probe_srcs = PROBES + ok_progs[:10] + SWEEP
+    probe_srcs = PROBES + ok_progs[:10] + SWEEP + TYPE_PROBES + FOLDERS
     tasks = [(k, s_) for s_ in probe_srcs for k in ("cstmt", "insn")]
     with mp.get_context("fork").Pool(16, maxtasksperchild=1) as pool:
         _ref = dict(zip(tasks, pool.map(_ref_worker, tasks, chunksize=1)))
@@ -253,7 +259,8 @@ def run(tier: str, replay=None) -> int:
             break
     # the type-sensitive family (loads of both signednesses, the same routine's result used at several widths) in both orders
     # on one instance each: a type object shared or cached between compilations makes the later ones depend on the earlier
-    for order, kind in ((fam, "cstmt"), (fam[::-1], "insn")):
+    fam2 = FOLDERS + TYPE_PROBES
+    for order, kind in ((fam, "cstmt"), (fam[::-1], "insn"), (fam2, "cstmt"), (fam2[::-1], "insn")):
         c = rc.compiler("READ_STATEMENTS", fresh=True)
         hist = []
         for src in order + order:
@@ -266,6 +273,28 @@ def run(tier: str, replay=None) -> int:
                              "reproduce": "replay the listed calls in order on ONE fresh Compiler instance, then the probe call; compare with a fresh instance"})
                 break
             hist.append((0, kind, src, real[0]))
+    # every failing input directly in front of a probe, on one instance per entry point: the compilation after a failure
+    # must be the compilation of a fresh instance (code AND attributes)
+    for kind in ("cstmt", "insn"):
+        c = rc.compiler("READ_STATEMENTS", fresh=True)
+        hist = []
+        stop_ = False
+        for i_, f in enumerate(FAIL_EARLY + FAIL_XFORM):
+            for fk in ("cstmt", "insn"):
+                hist.append((0, fk, f, do_call(c, fk, f)[0]))
+                src = PROBES[(i_ + (fk == "insn")) % 7]
+                real = do_call(c, kind, src)
+                ref = fresh_output(kind, src)
+                evals += 1
+                if real[:2] != ref[:2] or real[2] != ref[2]:
+                    viol.append({"what": "the compilation directly after a FAILED compilation differs from the compilation on a fresh instance",
+                                 "history": list(hist)[-6:], "probe": [kind, src], "real": real, "fresh": ref,
+                                 "reproduce": "on a fresh Compiler instance run the last listed (failing) call, then the probe call; compare with a fresh instance"})
+                    stop_ = True
+                    break
+                hist.append((0, kind, src, real[0]))
+            if stop_:
+                break
     # mixed behaviours on one instance
     for kind in ("cstmt", "insn"):
         c = rc.compiler("READ_STATEMENTS", fresh=True)
